@@ -162,6 +162,8 @@ pub struct InstOpts {
     /// number of random range/prefix cases per snapshot in a full battery
     pub scan_cases: usize,
     pub fifo: bool,
+    /// FIFO mode: keys are appended in descending instead of ascending order
+    pub fifo_desc: bool,
     pub known: Arc<BTreeSet<(String, String)>>,
     /// property under check: structural findings that belong to other properties are recorded
     /// and the history continues, so that this property's own monitors still get to run
@@ -193,6 +195,7 @@ pub struct Instance {
     pub ctx_name: String,
     pub cleared_since_open: bool,
     pub fifo: bool,
+    pub fifo_desc: bool,
     pub fifo_next: u64,
     pub layouts: BTreeSet<String>,
     pub installs_seen: u64,
@@ -273,6 +276,7 @@ impl Instance {
             ctx_name: "create".into(),
             cleared_since_open: false,
             fifo: opts.fifo,
+            fifo_desc: opts.fifo_desc,
             fifo_next: 0,
             layouts: BTreeSet::new(),
             installs_seen: 0,
@@ -722,7 +726,8 @@ impl Instance {
             Op::FifoAppend { n, vlen } => {
                 let mut touched = vec![];
                 for _ in 0..*n {
-                    let key = format!("f{:08}", self.fifo_next).into_bytes();
+                    let n = if self.fifo_desc { 99_999_999 - self.fifo_next } else { self.fifo_next };
+                    let key = format!("f{n:08}").into_bytes();
                     self.fifo_next += 1;
                     let v = self.next_value(*vlen);
                     let s = self.seqno.next();
